@@ -193,6 +193,57 @@ func loweredFeatures(c Case) map[jsref.Feature]bool {
 	return m
 }
 
+// overEditionNames returns, sorted, the esbuild feature names of the program's features that are newer
+// than edition ed, and whether every such feature has an esbuild name at all.
+func overEditionNames(p *jsref.Program, ed int) (names []string, allNamed bool) {
+	allNamed = true
+	seen := map[string]bool{}
+	for f := range p.Features {
+		fe := jsref.FeatureEdition(f)
+		if fe <= ed || f == jsref.FeatHashbang {
+			continue
+		}
+		found := false
+		for _, n := range featNames() {
+			for _, jf := range featureMap[n] {
+				if jf == f {
+					found = true
+					if !seen[n] {
+						seen[n] = true
+						names = append(names, n)
+					}
+				}
+			}
+		}
+		if !found {
+			allNamed = false
+		}
+	}
+	sort.Strings(names)
+	return
+}
+
+// inTrueDomain: the domain of the "supported:{f:true} ⇒ the input's use of f is kept" rule. A pure
+// language target (its feature set is the edition table; with an engine in the list esbuild intersects
+// with a per-engine table this harness has no independent copy of), no `false` overrides, and every
+// feature of the input that is newer than the target is among the `true` overrides — so nothing else
+// can force the lowering of f.
+func inTrueDomain(c Case, in *jsref.Program) bool {
+	if c.Target == "" || c.NodeMajor != 0 || len(c.Unsupported) > 0 || len(c.Supported) == 0 || in == nil {
+		return false
+	}
+	names, allNamed := overEditionNames(in, editionOf(c.Target))
+	if !allNamed {
+		return false
+	}
+	for _, n := range names {
+		if !hasString(c.Supported, n) {
+			return false
+		}
+	}
+	return true
+}
+
 func editionOf(target string) int {
 	var y int
 	fmt.Sscanf(target, "es%d", &y)
@@ -307,7 +358,10 @@ func judge(c Case) vdrv.Verdict {
 				return vdrv.Skip("engine-missing")
 			}
 			g := goal
-			src := out
+			// A leading hashbang line is consumed by Node's loader, not by the parser: Node < 12 strips it in
+			// lib/internal/modules (stripShebang) before V8 sees the file (`node10 file.js` runs it; the raw
+			// `vm.Script` used here does not). Model the loader: blank the line, only when it is at offset 0.
+			src := stripLeadingHashbang(out)
 			if c.Format == "cjs" || (c.Format == "" && c.Bundle) {
 				g = "script"
 			}
@@ -324,6 +378,15 @@ func judge(c Case) vdrv.Verdict {
 					if warned {
 						cls = append(cls, "engine-rejects-with-warning")
 					} else {
+						if strings.Contains(r[0], "must be declared in an enclosing class") && ierr == nil &&
+							privateStaticAssignedOutsideClass(inProg, prog, func(repaired string) bool {
+								rr, e := w.ParseAll([]string{stripLeadingHashbang(repaired)}, g)
+								return e == nil && len(rr) == 1 && rr[0] == "ok"
+							}) {
+							v := vdrv.Fail("node "+NodeV[c.NodeMajor]+" rejects `X.#field = value` that esbuild placed after the class body: "+r[0], "parses", out)
+							v.Known = "C14-private-static-field-assigned-outside-class"
+							return v
+						}
 						if c.NodeMajor < 14 && hasBigIntPropertyKey(c.Code) {
 							v := vdrv.Fail("node "+NodeV[c.NodeMajor]+" rejects a BigInt literal used as a property key", "parses", out)
 							v.Known = "C14-bigint-property-key-old-node"
@@ -349,7 +412,11 @@ func judge(c Case) vdrv.Verdict {
 					cls = append(cls, "lowered-feature-kept-with-warning")
 					continue
 				}
-				return vdrv.Fail(fmt.Sprintf("esbuild lowers %s for this configuration (target=%q node=%d unsupported=%v) in a one-line probe, but output %s uses it at offset %d", f, c.Target, c.NodeMajor, c.Unsupported, name, off), "feature absent", out)
+				v := vdrv.Fail(fmt.Sprintf("esbuild lowers %s for this configuration (target=%q node=%d unsupported=%v) in a one-line probe, but output %s uses it at offset %d", f, c.Target, c.NodeMajor, c.Unsupported, name, off), "feature absent", out)
+				if f == jsref.FeatArrow && ierr == nil {
+					v.Known = knownSynthesizedArrow(c, inProg, prog)
+				}
+				return v
 			}
 		}
 		checked++
@@ -361,11 +428,22 @@ func judge(c Case) vdrv.Verdict {
 						cls = append(cls, "unsupported-feature-kept-with-warning")
 						continue
 					}
-					return vdrv.Fail(fmt.Sprintf("supported:{%q:false} but output %s still uses %s at offset %d", f, name, jf, off), "feature absent", out)
+					v := vdrv.Fail(fmt.Sprintf("supported:{%q:false} but output %s still uses %s at offset %d", f, name, jf, off), "feature absent", out)
+					if jf == jsref.FeatArrow && ierr == nil {
+						v.Known = knownSynthesizedArrow(c, inProg, prog)
+					}
+					return v
 				}
 			}
 		}
-		if ierr == nil && !c.Bundle && !c.Minify {
+		// `supported:{f:true}` lets esbuild assume f; it does not oblige esbuild to keep a use of f whose
+		// lowering is forced by ANOTHER feature the target lacks (a public field next to a lowered private
+		// field, a static block next to lowered static fields, `async *` when async-generator is missing, …:
+		// esbuild lowers those together to keep evaluation order, and says so in computeClassLoweringInfo).
+		// "Not lowered" is therefore asserted only on inputs every newer-than-target feature of which is
+		// declared supported (inTrueDomain); the generator constructs such cases on purpose.
+		if ierr == nil && !c.Bundle && !c.Minify && inTrueDomain(c, inProg) {
+			cls = append(cls, "supported-true-domain")
 			for _, f := range c.Supported {
 				for _, jf := range featureMap[f] {
 					if _, in := inProg.Features[jf]; in {
@@ -396,6 +474,14 @@ func judge(c Case) vdrv.Verdict {
 	v := vdrv.Pass(checked > 0 && (ierr != nil || len(inProg.Features) >= 2), cls...)
 	v.Observed = fmt.Sprintf("%d files checked", len(b.files))
 	return v
+}
+
+// stripLeadingHashbang replaces a `#!` line at offset 0 by a line comment of the same length.
+func stripLeadingHashbang(src string) string {
+	if strings.HasPrefix(src, "#!") {
+		return "//" + src[2:]
+	}
+	return src
 }
 
 // hasBigIntPropertyKey: signature of C14-bigint-property-key-old-node: a BigInt literal token directly
@@ -455,7 +541,26 @@ func drawConfig(rt *rapid.T, c *Case) {
 			c.Unsupported = append(c.Unsupported, rapid.SampledFrom(names).Draw(rt, "unsupported"))
 		}
 	case 1:
-		c.Supported = append(c.Supported, rapid.SampledFrom(names).Draw(rt, "supported"))
+		// true overrides: half of the time (language target, input parses) declare EVERY newer-than-target
+		// feature of the input supported, which puts the case in the domain of the "kept" rule; otherwise one
+		// feature — of the input if possible — which exercises partial overrides against oracles (1), (2), (4).
+		var over []string
+		if c.Target != "" {
+			if p, err := jsref.Parse(c.Code, jsref.Options{Module: true}); err == nil {
+				if ns, allNamed := overEditionNames(p, editionOf(c.Target)); allNamed || len(ns) > 0 {
+					over = ns
+				}
+			}
+		}
+		mode := rapid.IntRange(0, 3).Draw(rt, "supportedmode")
+		switch {
+		case len(over) > 0 && mode <= 1:
+			c.Supported = append(c.Supported, over...)
+		case len(over) > 0 && mode == 2:
+			c.Supported = append(c.Supported, rapid.SampledFrom(over).Draw(rt, "supported"))
+		default:
+			c.Supported = append(c.Supported, rapid.SampledFrom(names).Draw(rt, "supported"))
+		}
 	}
 	c.Bundle = rapid.IntRange(0, 2).Draw(rt, "bundle") == 0
 	c.Format = rapid.SampledFrom([]string{"", "esm", "cjs", "iife"}).Draw(rt, "format")
@@ -501,7 +606,7 @@ func runFamilies(t *testing.T) {
 }
 
 func runOverrides(t *testing.T) {
-	H.Rule("overrides", "rapid: a family/rare snippet or jsgen program × random language target and/or Node engine × `supported` overrides in both directions (false ⇒ feature absent from every emitted file incl. helpers; true on a low target ⇒ the input's use is not lowered) × bundle × format × minify")
+	H.Rule("overrides", "rapid: a family/rare snippet or jsgen program × random language target and/or Node engine × `supported` overrides in both directions (false ⇒ feature absent from every emitted file incl. helpers; true on a low language target ⇒ the input's use is not lowered, asserted only when EVERY newer-than-target feature of the input is declared supported — otherwise esbuild may lower the feature together with an unsupported neighbour (class fields next to lowered private fields, static blocks next to lowered static fields, `async *` without async-generator) to keep evaluation order, which the property allows; the generator declares the input's whole newer feature set supported in half of the `true` cases, class supported-true-domain) × bundle × format × minify. For the real-engine oracle a hashbang at offset 0 is blanked first: Node's loader, not its parser, consumes it (Node 10 runs such a file but its vm.Script rejects `#!`)")
 	H.SetupRapid("overrides", H.N(2500, 150000))
 	rapid.Check(t, func(rt *rapid.T) {
 		c := Case{}
